@@ -16,7 +16,14 @@ use crate::sched::SchedSpec;
 
 #[derive(Clone, Debug, Serialize, Deserialize, PartialEq)]
 pub enum TOp {
-    Ins { key: u64, id: u32, mv: u8 },
+    Ins {
+        key: u64,
+        id: u32,
+        mv: u8,
+        /// which field(s) of the base value are shifted (0 = none), see `value_for`
+        #[serde(default)]
+        var: u8,
+    },
     Find { key: u64 },
     Entries,
 }
@@ -64,37 +71,69 @@ struct Rec {
     res: Res,
 }
 
-fn value_for(key: u64, id: u32, mv: u8) -> EntryView {
+fn value_for(key: u64, id: u32, mv: u8, var: u8) -> EntryView {
     let from = Square::try_from(mv % 64).unwrap_or(Square::A1);
     let to = Square::try_from((mv / 4 + 8) % 64).unwrap_or(Square::A2);
-    EntryView {
+    let mut e = EntryView {
         kind: (id % 3) as u8,
         performed_move: Move::by_moving(PieceIndex::new(Color::White, Piece::Pawn), from, to),
         depth: id as usize,
         // the remaining depth (max_depth - depth) varies from insert to insert, also under one key
         max_depth: id as usize + ((id as u64).wrapping_mul(0x9e37_79b9).wrapping_add(key) >> 3) as usize % 7,
         evaluation: id as i32,
+    };
+    // near-twins: values that differ from the base value of (id, mv) in as little as possible
+    match var {
+        0 => {}
+        1 => {
+            // same remaining depth, reached one ply later
+            e.depth += 1;
+            e.max_depth += 1;
+        }
+        2 => e.max_depth += 1,
+        3 => e.kind = (e.kind + 1) % 3,
+        4 => {
+            e.depth += 3;
+            e.max_depth += 3;
+        }
+        5 => {
+            // depth beyond max_depth (a remaining depth that saturates at zero), twice
+            e.depth = e.max_depth + 1;
+        }
+        6 => {
+            e.depth = e.max_depth + 2;
+        }
+        _ => e.evaluation = -e.evaluation,
     }
+    e
 }
 
-/// Identity of a stored value: the insert's id and its move selector. Two inserts may share an
-/// id ("twins": equal in kind, depths and evaluation, different move) but never id and selector.
-fn uid(id: u32, mv: u8) -> u32 {
-    id * 256 + mv as u32
-}
-
-fn uid_of(e: &EntryView) -> u32 {
+/// Identity of a stored value: its whole content (kind, move, both depths, evaluation). Two
+/// inserts of a case never carry the same content: ids are unique except for "twins", which
+/// share an id and differ in the move or in exactly one other field.
+fn uid_of(e: &EntryView) -> i64 {
     let from: u8 = e.performed_move.origin().into();
     let to: u8 = e.performed_move.destination().into();
-    let mv = (((to.wrapping_sub(8)) & 63) << 2) | (from & 3);
-    uid(e.evaluation as u32, mv)
+    let mut h = FNV_INIT;
+    fnv_str(&mut h, &format!("{}|{}|{}|{}|{}|{}|{:?}", e.kind, from, to, e.depth, e.max_depth, e.evaluation, e.performed_move.promotion()));
+    (h >> 1) as i64
+}
+
+fn uid(key: u64, id: u32, mv: u8, var: u8) -> i64 {
+    uid_of(&value_for(key, id, mv, var))
+}
+
+fn show(e: &EntryView) -> String {
+    let from: u8 = e.performed_move.origin().into();
+    let to: u8 = e.performed_move.destination().into();
+    format!("(kind {} move {}->{} depth {}/{} eval {})", e.kind, from, to, e.depth, e.max_depth, e.evaluation)
 }
 
 fn do_op(table: &Table, thread: usize, op: &TOp) -> Rec {
     let inv = seq();
     let res = match op {
-        TOp::Ins { key, id, mv } => {
-            table.insert(*key, value_for(*key, *id, *mv));
+        TOp::Ins { key, id, mv, var } => {
+            table.insert(*key, value_for(*key, *id, *mv, *var));
             Res::Unit
         }
         TOp::Find { key } => Res::Found(table.find(*key)),
@@ -126,7 +165,7 @@ fn build(case_tables: usize, case_buckets: usize, bytes: Option<usize>) -> Table
 
 fn learn_route(tables: usize, buckets: usize, bytes: Option<usize>, key: u64) -> Option<(usize, usize)> {
     let t = build(tables, buckets, bytes);
-    t.insert(key, value_for(key, 0, 0));
+    t.insert(key, value_for(key, 0, 0, 0));
     let d = t.dump();
     if d.len() != 1 {
         return None;
@@ -249,7 +288,7 @@ fn res_str(r: &Res) -> String {
         Res::Unit => "()".into(),
         Res::Count(n) => format!("{}", n),
         Res::Found(None) => "None".into(),
-        Res::Found(Some(e)) => format!("Some(id={},mv={})", e.evaluation, uid_of(e) % 256),
+        Res::Found(Some(e)) => format!("Some{}", show(e)),
     }
 }
 
@@ -280,10 +319,10 @@ fn check(case: &TableCase, obs: &Observed, v: &mut Vec<Violation>, stats: &mut R
         return;
     }
     // id -> (key, value) of every insert in the case
-    let mut by_id: HashMap<u32, (u64, EntryView)> = HashMap::new();
+    let mut by_id: HashMap<i64, (u64, EntryView)> = HashMap::new();
     for op in case.prefill.iter().chain(case.threads.iter().flatten()) {
-        if let TOp::Ins { key, id, mv } = op {
-            by_id.insert(uid(*id, *mv), (*key, value_for(*key, *id, *mv)));
+        if let TOp::Ins { key, id, mv, var } = op {
+            by_id.insert(uid(*key, *id, *mv, *var), (*key, value_for(*key, *id, *mv, *var)));
         }
     }
     let inserts: Vec<&Rec> = obs.recs.iter().filter(|r| matches!(r.op, TOp::Ins { .. })).collect();
@@ -292,7 +331,7 @@ fn check(case: &TableCase, obs: &Observed, v: &mut Vec<Violation>, stats: &mut R
         _ => unreachable!(),
     };
     let ins_id = |r: &Rec| match r.op {
-        TOp::Ins { id, mv, .. } => uid(id, mv),
+        TOp::Ins { key, id, mv, var } => uid(key, id, mv, var),
         _ => unreachable!(),
     };
     let route = |k: u64| obs.routes.get(&k).copied();
@@ -359,7 +398,13 @@ fn check(case: &TableCase, obs: &Observed, v: &mut Vec<Violation>, stats: &mut R
                         v.push(Violation::new("C15", "corrupt-entry", "", format!("find({:#x}) returned {:?}, stored was {:?}", key, e, val)));
                     }
                     None => {
-                        v.push(Violation::new("C15", "phantom-entry", "", format!("find({:#x}) returned an entry that was never inserted: {:?}", key, e)));
+                        // content that no insert of this case carried: a mixture of two stored values?
+                        let near = by_id.values().any(|(k2, val)| k2 == key && val.evaluation == e.evaluation);
+                        if near {
+                            v.push(Violation::new("C15", "corrupt-entry", "", format!("find({:#x}) returned {}, which no insert stored (inserts under that key with the same evaluation exist)", key, show(e))));
+                        } else {
+                            v.push(Violation::new("C15", "phantom-entry", "", format!("find({:#x}) returned an entry that was never inserted: {:?}", key, e)));
+                        }
                     }
                 }
             }
@@ -477,8 +522,8 @@ fn check(case: &TableCase, obs: &Observed, v: &mut Vec<Violation>, stats: &mut R
             let r = &obs.recs[*ri];
             stats.eval("sequential-step");
             match &r.op {
-                TOp::Ins { key, id, mv } => {
-                    let val = value_for(*key, *id, *mv);
+                TOp::Ins { key, id, mv, var } => {
+                    let val = value_for(*key, *id, *mv, *var);
                     let Some(b) = route(*key) else { continue };
                     let bucket = model.entry(b).or_default();
                     if let Some(e) = bucket.iter_mut().find(|e| e.0 == *key) {
@@ -502,14 +547,14 @@ fn check(case: &TableCase, obs: &Observed, v: &mut Vec<Violation>, stats: &mut R
                     let want = route(*key).and_then(|b| model.get(&b)).and_then(|bk| bk.iter().find(|e| e.0 == *key)).map(|e| e.1);
                     if let Res::Found(got) = &r.res {
                         if *got != want {
-                            v.push(Violation::new("C15", "sequential-model", "find", format!("find({:#x}) = {:?}, model says {:?} (id*256+move)", key, got.map(|e| uid_of(&e)), want.map(|e| uid_of(&e)))));
+                            v.push(Violation::new("C15", "sequential-model", "find", format!("find({:#x}) = {}, model says {}", key, got.map(|e| show(&e)).unwrap_or("nothing".into()), want.map(|e| show(&e)).unwrap_or("nothing".into()))));
                         }
                     }
                 }
                 TOp::Entries => {}
             }
-            let mut m: Vec<(usize, usize, u64, u32)> = model.iter().flat_map(|(b, es)| es.iter().map(move |e| (b.0, b.1, e.0, uid_of(&e.1)))).collect();
-            let mut d: Vec<(usize, usize, u64, u32)> = dump.iter().map(|s| (s.table, s.bucket, s.key, uid_of(&s.entry))).collect();
+            let mut m: Vec<(usize, usize, u64, i64)> = model.iter().flat_map(|(b, es)| es.iter().map(move |e| (b.0, b.1, e.0, uid_of(&e.1)))).collect();
+            let mut d: Vec<(usize, usize, u64, i64)> = dump.iter().map(|s| (s.table, s.bucket, s.key, uid_of(&s.entry))).collect();
             m.sort();
             d.sort();
             if m != d {
@@ -552,8 +597,8 @@ fn check(case: &TableCase, obs: &Observed, v: &mut Vec<Violation>, stats: &mut R
 /// displace *some* resident) explains every result?
 fn linearizable(hist: &[&Rec], slots: usize) -> bool {
     let n = hist.len();
-    let mut memo: HashSet<(u32, Vec<(u64, i32)>)> = HashSet::new();
-    fn go(hist: &[&Rec], slots: usize, done: u32, state: &mut Vec<(u64, i32)>, memo: &mut HashSet<(u32, Vec<(u64, i32)>)>) -> bool {
+    let mut memo: HashSet<(u32, Vec<(u64, i64)>)> = HashSet::new();
+    fn go(hist: &[&Rec], slots: usize, done: u32, state: &mut Vec<(u64, i64)>, memo: &mut HashSet<(u32, Vec<(u64, i64)>)>) -> bool {
         let n = hist.len();
         if done == (1u32 << n) - 1 {
             return true;
@@ -573,12 +618,12 @@ fn linearizable(hist: &[&Rec], slots: usize) -> bool {
             match (&r.op, &r.res) {
                 (TOp::Find { key }, Res::Found(got)) => {
                     let have = state.iter().find(|e| e.0 == *key).map(|e| e.1);
-                    if have == got.map(|e| uid_of(&e) as i32) && go(hist, slots, done | (1 << i), state, memo) {
+                    if have == got.map(|e| uid_of(&e)) && go(hist, slots, done | (1 << i), state, memo) {
                         return true;
                     }
                 }
-                (TOp::Ins { key, id, mv }, _) => {
-                    let val = uid(*id, *mv) as i32;
+                (TOp::Ins { key, id, mv, var }, _) => {
+                    let val = uid(*key, *id, *mv, *var);
                     if let Some(pos) = state.iter().position(|e| e.0 == *key) {
                         let old = state[pos].1;
                         state[pos].1 = val;
@@ -646,7 +691,7 @@ pub fn generate(rng: &mut Rng64, thorough: bool) -> TableCase {
     if rng.chance(500) {
         let k = 5 + rng.below(4) as usize;
         for i in 0..k.min(pool.len()) {
-            prefill.push(TOp::Ins { key: pool[i], id: next_id, mv: rng.below(256) as u8 });
+            prefill.push(TOp::Ins { key: pool[i], id: next_id, mv: rng.below(256) as u8, var: 0 });
             next_id += 1;
         }
     }
@@ -664,16 +709,17 @@ pub fn generate(rng: &mut Rng64, thorough: bool) -> TableCase {
             if r < 8 && !ops.is_empty() {
                 // a twin: the same key stored again with a value that differs from an earlier
                 // one of this task only in its move
-                let earlier: Vec<(u64, u32, u8)> = ops.iter().filter_map(|o| if let TOp::Ins { key, id, mv } = o { Some((*key, *id, *mv)) } else { None }).collect();
-                if let Some(&(k, id, mv)) = earlier.last() {
-                    let mv2 = mv.wrapping_add(1 + rng.below(254) as u8);
-                    let dup = ops.iter().any(|o| matches!(o, TOp::Ins { id: i2, mv: m2, .. } if *i2 == id && *m2 == mv2));
+                let earlier: Vec<(u64, u32, u8, u8)> = ops.iter().filter_map(|o| if let TOp::Ins { key, id, mv, var } = o { Some((*key, *id, *mv, *var)) } else { None }).collect();
+                if let Some(&(k, id, mv, var)) = earlier.last() {
+                    // ... or only in one other field (near-twin), the move staying the same
+                    let (mv2, var2) = if rng.chance(500) { (mv.wrapping_add(1 + rng.below(254) as u8), var) } else { (mv, (var + 1 + rng.below(7) as u8) % 8) };
+                    let dup = ops.iter().any(|o| matches!(o, TOp::Ins { id: i2, mv: m2, var: v2, .. } if *i2 == id && *m2 == mv2 && *v2 == var2));
                     if !dup {
-                        ops.push(TOp::Ins { key: k, id, mv: mv2 });
+                        ops.push(TOp::Ins { key: k, id, mv: mv2, var: var2 });
                     }
                 }
             } else if r < 55 {
-                ops.push(TOp::Ins { key, id: next_id, mv: rng.below(256) as u8 });
+                ops.push(TOp::Ins { key, id: next_id, mv: rng.below(256) as u8, var: 0 });
                 next_id += 1;
             } else if r < 95 {
                 ops.push(TOp::Find { key });
